@@ -17,7 +17,7 @@ from .. import drive, findings
 from ..gen import scalar, terms as T
 from ..gen.printer import to_text
 from ..mon import contracts
-from ..ref import sql_lex, sql_parse
+from ..ref import sql_lex, sql_parse, sql_value
 from ..ref.decode import decode
 from ..ref.types import welltyped, static_type
 from ..shrink import shrink
@@ -51,6 +51,7 @@ def profile():
     p.funcs = set(SQL_FUNCS)
     p.columns = dict(scalar.SCHEMA, dd="date")
     p.types = {"int", "float", "str", "bool", "datetime", "date"}
+    p.bare_bool_literal = True
     p.null_left = True
     return p
 
@@ -83,7 +84,9 @@ def add_durations(rng, t):
     def f(x):
         if x[0] == "id" and x[1].startswith("d") and not x[1].startswith("dd") and rng.random() < 0.3:
             return ("bin", rng.choice(["add", "sub"]), x,
-                    T.lit("duration", rng.choice(scalar.DUR_LITS + ["P1Y", "P2M", "P1Y2M3DT4H5M6S"])))
+                    T.lit("duration", rng.choice(scalar.DUR_LITS + ["P1Y", "P2M", "P1Y2M3DT4H5M6S", "-P1DT2H",
+                                                              "P1DT1H", "-P3DT3H3M", "P2DT5H2M", "-P1Y6M",
+                                                              "+P1DT1S", "PT1H1M1S", "-PT1H30M"])))
         return x
     return T.map_term(f, t)
 
@@ -171,6 +174,14 @@ def analyse(ctx, astnode, term, sql, events, alias):
             else:
                 probs.append("(b) sub-expression %s %r does not occupy a complete subtree"
                              % (cn, frag[:80]))
+        # a duration literal must denote the same (months, seconds) in the SQL
+        if cn == "Duration" and pnodes:
+            want = sql_value.duration_value(node.val)
+            got = sql_value.interval_value(pnodes[0], toks)
+            ctx.count("durations_evaluated")
+            if want is not None and got != want:
+                probs.append("(c) duration %s is rendered as an interval expression worth %s "
+                             "(months, seconds), not %s" % (node.val, got, want))
         # (d) leaves
         if cn in ("Identifier", "Integer", "Float", "String") and not in_call:
             if len(occ) != 1:
